@@ -121,6 +121,40 @@ def slice_reader_arg(eng, st, name="input"):
     return VRef(cell, (), True)
 
 
+def in_ctx(frame, fn):
+    """is this frame the function `fn` itself or something it runs (a helper, a closure, a std iterator consumer such
+    as collect / for_each analysed as the loop it is)?"""
+    if frame.key == fn["key"]:
+        return True
+    parts = frame.ctxname.split(" > ")
+    short = "::".join(fn["name"].replace("::<T>", "").split("::")[-2:])
+    return parts[0] == fn["name"] or short in parts[1:]
+
+
+def continues_after(eng, frame, head, b):
+    """the back-edge states reached when one more iteration is run from back-edge state `b` with ITS values (not the
+    loop summary): empty when the loop is certain to stop after the iteration that ended in `b`"""
+    loops = eng.loops_of(frame.fn, frame.body)
+    loopset = loops.get(head)
+    if loopset is None:
+        return None
+    eng.mute += 1
+    try:
+        succs = eng.exec_block(frame, b.fork(), head)
+        items = [(s, x) for k, s, x in succs if k == "goto"]
+        res = eng.explore(frame, items, head, loopset)
+        return res["back"]
+    except Abort:
+        return None
+    finally:
+        eng.mute -= 1
+
+
+def record_loop(res, n0, rid="reader.*"):
+    """does this loop walk AVP records: some iteration reads from the region reader?"""
+    return any(e[0] == "read" and e[1] == rid for b in res["back"] for e in b.events()[n0:])
+
+
 def own_site(site_info_, inner="AVP::write"):
     """was this writer event emitted by the function under analysis itself (or a helper / closure it runs), as opposed
     to inside a nested `inner` call (an AVP's own encoder)?  Decided from the call context, not the function name, so
